@@ -2061,3 +2061,49 @@ mut("quiet-scanning-guarded-true", ["C09"], [("rescan.go", '''	if !rs.scanning {
 		rs.scanning = true
 	}
 ''')], [])
+
+# ---- additive changes (campaign V): quiet forms and a broken twin ----
+_PS_STRING = '''package neutrino
+
+import "fmt"
+
+func (ps *peerState) String() string {
+	return fmt.Sprintf("outbound=%d persistent=%d groups=%d", len(ps.outboundPeers), len(ps.persistentPeers), len(ps.outboundGroups))
+}
+'''
+_PS_LOG = [(N, '''		case p := <-s.newPeers:
+			s.handleAddPeerMsg(state, p)
+''', '''		case p := <-s.newPeers:
+			s.handleAddPeerMsg(state, p)
+			log.Tracef("peers now: %v", state)
+''')]
+mut("quiet-additive-peerstate-string", ["C18", "C13", "C04"], _PS_LOG, [], new_files=[("zz_ps_string.go", _PS_STRING)])
+mut("c18-peerstate-string-from-api", ["C18"], _PS_LOG + [(N, '''	state := &peerState{
+		persistentPeers: make(map[int32]*ServerPeer),''', '''	state := &peerState{
+		persistentPeers: make(map[int32]*ServerPeer),''')], ["C18.R1"], new_files=[("zz_ps_string.go", _PS_STRING + '''
+var zzLastState = &peerState{}
+
+// PeerSummary describes the peer state.
+func (s *ChainService) PeerSummary() string {
+	return fmt.Sprint(zzLastState)
+}
+''')])
+mut("quiet-additive-log-new-requests", ["C10"], [(US, '''		newReqs := s.dequeueAtHeight(height)
+''', '''		newReqs := s.dequeueAtHeight(height)
+		if len(newReqs) > 0 {
+			log.Debugf("Adding %d new request(s) at height=%d", len(newReqs), height)
+		}
+''')], [])
+mut("quiet-additive-status-flag", ["C13"], [("banman/store.go", '''	var banStatus Status
+	err := walletdb.Update(s.db, func(tx walletdb.ReadWriteTx) error {
+''', '''	var banStatus Status
+	expired := false
+	err := walletdb.Update(s.db, func(tx walletdb.ReadWriteTx) error {
+		expired = false
+'''), ("banman/store.go", '''		if !time.Now().Before(status.Expiration) {
+			return removeBannedIPNet(banIndex, reasonIndex, k)''', '''		if !time.Now().Before(status.Expiration) {
+			expired = true
+			return removeBannedIPNet(banIndex, reasonIndex, k)'''), ("banman/store.go", '''	return banStatus, nil
+}''', '''	_ = expired
+	return banStatus, nil
+}''')], [])
